@@ -42,14 +42,17 @@ CHECKS = {
         text="Every operation kind (18 op messages, 4 API events, 5 DML kinds, the 3 readiness probes they trigger) is pushed through the real ChannelWriter for every source database, mapping shape, insertion order of mapping entries and downstream answer; every call recorded at the fake DataHandler is compared with the reference mapping (routing database, request db/collection fields) and the writer's bookkeeping keys with source-name keys.",
         note="Finite input space enumerated completely. sync.Map iteration order is random and outside the harness' control: multi-entry mappings are repeated 24x (200x thorough) under every insertion order and all repetitions must agree. RBAC entity fields are C20's business.",
         parts=[part("names", "core", "writer", "TestVerifC09Names", shards=(8, 16), budget=(150, 900)),
-               part("target", "core", "reader", "TestVerifC09Target")],
+               part("target", "core", "reader", "TestVerifC09Target"),
+               part("targetcalls", "core", "reader", "TestVerifC09TargetCalls", shards=(4, 8), budget=(150, 600)),
+               part("handler", "core", "writer", "TestVerifC09Handler", shards=(4, 8), budget=(150, 600))],
     ),
     "C20": dict(
         level="model_checking", engine="seq",
         technique="total enumeration of per-kind field-domain products and malformed packs through the real ChannelWriter, deep comparison with an independent reference builder",
         text="For every supported operation message kind and API event the product of small field domains is pushed through the real ChannelWriter; the one request recorded at the fake DataHandler is deep-compared with an independently built expectation (same identity fields, dropped list members removed, schema/shards/consistency/properties for create collection, replication flag, source timestamp); malformed packs must be rejected with no downstream call.",
         note="Finite alphabet enumerated completely (about 3k cases); field contents outside the alphabets are not covered. Event timestamps produced by the reader (create time / barrier time) are checked in the C04 pipeline harness.",
-        parts=[part("requests", "core", "writer", "TestVerifC20Requests", shards=(4, 8), budget=(150, 900))],
+        parts=[part("requests", "core", "writer", "TestVerifC20Requests", shards=(4, 8), budget=(150, 900)),
+               part("handler", "core", "writer", "TestVerifC20Handler", shards=(4, 8), budget=(150, 600))],
     ),
     "C07": dict(
         level="model_checking", engine="seq+sched",
@@ -57,7 +60,8 @@ CHECKS = {
         text="Every pack of up to 3 (4 thorough) messages over the six message kinds, for every replicate-id / name-mapping / downstream-answer configuration, is sent through the real ChannelWriter and replicate message manager; the serialized messages captured at the fake DataHandler are decoded exactly as the Milvus proxy does (MsgHeader -> type -> ProtoUnmarshalDispatcher) and compared field by field with a pristine copy of the pack, together with the call envelope, the returned checkpoints and the error.",
         note="Field values come from builders (2 rows, int64 pks, one partition name); concurrent calls on different channels are explored by the sched part. The fake answers with a synthetic target position.",
         parts=[part("bytes", "core", "writer", "TestVerifC07Bytes", shards=(8, 16), budget=(150, 900)),
-               part("sched", "core", "writer", "TestVerifC07Sched", shards=(4, 8), budget=(120, 600), gomaxprocs=1)],
+               part("sched", "core", "writer", "TestVerifC07Sched", shards=(4, 8), budget=(120, 600), gomaxprocs=1),
+               part("handler", "core", "writer", "TestVerifC07Handler", shards=(8, 8), budget=(150, 600))],
     ),
     "C08": dict(
         level="model_checking", engine="seq",
